@@ -23,6 +23,9 @@ FINDING_TAGS = {'lazy-after-nonpara', 'lazy-after-indented-quote-content', 'lazy
 UNSETTLED_TAGS = {'unsettled-lazy-or-list', 'unsettled-definition-in-list-item', 'unsettled-block-start-after-definition'}
 
 
+DEEP_THOROUGH = ['S8', 'S9']       # definitions and HTML blocks in containers, read at six lines in the thorough tier only
+
+
 def settled(docs):
     return [d for d in docs if not (set(d['tags']) & UNSETTLED_TAGS)]
 
@@ -53,7 +56,7 @@ def document_parts(ck, depth, laws=True, only=None, deep_more=False):
     for a in SMALL:
         jobs.append(('BlockParse%s_%d.cfg' % (a, depth + 1), '-'))
     if only is None:
-        for a in DEEP + (DEEP_MORE if deep_more else []):             # two lines deeper, one TLC process per first line
+        for a in DEEP + (DEEP_MORE if deep_more else []) + (DEEP_THOROUGH if deep_more and depth >= 4 else []):             # two lines deeper, one TLC process per first line
             cfg = 'BlockParse%s_%d.cfg' % (a, depth + 2)
             for k in range(1, alphabet_size(cfg) + 1):
                 jobs.append((cfg, str(k)))
